@@ -994,7 +994,9 @@ class Expr:
     @property
     @_cache_in_props
     def _is_nonnegative(self):
-        assert not self.is_complex
+        if self.is_complex:
+            # signs are defined for real values only
+            return
         if self.kind == "constant":
             value, like = self.operands
             if isinstance(value, float_types + integer_types):
@@ -1046,7 +1048,9 @@ class Expr:
     @property
     @_cache_in_props
     def _is_nonpositive(self):
-        assert not self.is_complex
+        if self.is_complex:
+            # signs are defined for real values only
+            return
         if self.kind == "constant":
             value, like = self.operands
             if isinstance(value, float_types + integer_types):
